@@ -62,6 +62,26 @@ Definition queries (n m : nat) : list query :=
                          ++ (if (1 <=? m)%nat then [[0; 0]; [0; m]] else []))
   ++ [QTruthTable].
 
+(* memoised circuit: evaluate / evaluate_at are computed once for every input vector of the right
+   length (and every output index up to one past the last) and then looked up; any other argument
+   is computed directly.  Proofs/FuncProtoExt.v: the queries on it are the queries on the circuit. *)
+Definition memo {K V} (keqb : K -> K -> bool) (f : K -> V) (keys : list K) : K -> V :=
+  let tbl := map (fun k => (k, f k)) keys in
+  fun x => (fix look (l : list (K * V)) : V :=
+              match l with
+              | [] => f x
+              | (k, v) :: r => if keqb x k then v else look r
+              end) tbl.
+
+Definition circ_rep_memo (c : circuit) : frep :=
+  let r := circ_rep c in
+  let xs := all_bool_vectors (r_n r) in
+  let ev := memo bvec_eqb (r_ev r) xs in
+  let at_ := memo (fun a b => bvec_eqb (fst a) (fst b) && (snd a =? snd b)%nat)
+                  (fun xj => r_ev_at r (fst xj) (snd xj))
+                  (flat_map (fun x => map (fun j => (x, j)) (seq 0 (S (r_m r)))) xs) in
+  mkRep (r_n r) (r_m r) ev (fun x j => at_ (x, j)).
+
 (* answers in the order of `queries`; a length mismatch fails *)
 Fixpoint check_answers (run : query -> res answer) (qs : list query) (ans : list (res answer)) : bool :=
   match qs, ans with
@@ -125,7 +145,7 @@ Definition check_fcase (x : fcase) : bool :=
   | CFuncQ n table c ca ta pa =>
     let qs := queries n (length table) in
     match c with
-    | Some c => check_class_q (Ok c) circuit_query qs ca
+    | Some c => check_class_q (Ok (circ_rep_memo c)) (run_query ClsCircuit) qs ca
     | None => true
     end
     && check_class_q (tt_make table) tt_query qs ta
